@@ -136,7 +136,7 @@ func TestC10CleanAndSound(t *testing.T) {
 		}
 		var want string
 		switch {
-		case (c10HasTag(c, "tree=random") || c10HasTag(c, "tree=damaged")) && !c10HasTag(c, "cause=panic"):
+		case (c10HasTag(c, "tree=random") || c10HasTag(c, "tree=damaged") || c10HasTag(c, "tree=random-rich")) && !c10HasTag(c, "cause=panic"):
 			want = "" // validity unknown: a format error may come before the constructed cause
 		case c10HasTag(c, "cause=panic"):
 			want = "panic"
@@ -695,5 +695,174 @@ func TestC10SaveOverRelated(t *testing.T) {
 	}
 	if !vis["no truncation:existing-extends-output"] || !vis["same length:existing-same-length"] || !vis["tail only:existing-prefix-of-output"] {
 		t.Fatalf("visibility: %v", vis)
+	}
+}
+
+// ---- streams rich-content and writer-shapes (c10_rich.go) ----
+
+// Every writer shape on every writer entry point: the oracle accepts what the unchanged
+// implementation does and rejects hand-made violations of the expectation stated for the shape.
+func TestC10WriterShapes(t *testing.T) {
+	p := &c10{}
+	defer p.Close()
+	for seed := int64(1); seed <= 3; seed++ {
+		for _, entry := range []string{"render", "rcode-stmt", "rcode-group", "rplain-stmt", "rplain-group"} {
+			cv, gv := c10Mk(p, seed, c10spec{tree: "rich", entry: entry})
+			whole := gv[len(gv)-1].Out
+			if gv[len(gv)-1].Kind != "write" || len(whole) < 4 {
+				t.Fatalf("%s: the rich tree does not render: %v", entry, gv)
+			}
+			c10Accept(t, p, entry+"/rich, no fault", cv, gv)
+			for _, shape := range []string{"zero-err", "part-err", "full-err"} {
+				c, got := c10Mk(p, seed, c10spec{tree: "rich", entry: entry, wshape: shape})
+				o := got[len(got)-1]
+				if o.Kind != "write" || !o.Failed || o.Writes != 1 || len(o.Offered) != 1 || o.Offered[0] != whole {
+					t.Fatalf("%s/%s: want a failed write after one call carrying the output, got %v (offered %q)", entry, shape, got, o.Offered)
+				}
+				if !c.NonTrivial || !c10HasTag(c, "cause=wfault") || !c10HasTag(c, "wfault="+shape) {
+					t.Errorf("%s/%s: tags %v nontrivial %v", entry, shape, c.Tags, c.NonTrivial)
+				}
+				c10Accept(t, p, entry+"/"+shape, c, got)
+				// nil returned although the writer reported an error (with whatever byte count)
+				c10Reject(t, p, entry+"/"+shape+" swallowed", c, []hist.Obs{{Kind: "write", Writes: 1, Out: whole, Offered: []string{whole}}}, "swallowed")
+				c10Reject(t, p, entry+"/"+shape+" retried", c, []hist.Obs{{Kind: "write", Failed: true, Writes: 2}}, "called 2 times")
+			}
+			// the error of the SECOND call is never seen by an implementation that writes once
+			c, got := c10Mk(p, seed, c10spec{tree: "rich", entry: entry, wshape: "second-err"})
+			if o := got[len(got)-1]; o.Kind != "write" || o.Failed || o.Writes != 1 || o.Out != whole {
+				t.Fatalf("%s/second-err: want one successful write, got %v", entry, got)
+			}
+			c10Accept(t, p, entry+"/second-err", c, got)
+			c10Reject(t, p, entry+"/second-err two calls, error returned", c, []hist.Obs{{Kind: "write", Failed: true, Writes: 2}}, "2 Write calls")
+			c10Reject(t, p, entry+"/second-err two calls, error swallowed", c, []hist.Obs{{Kind: "write", Writes: 2, Out: whole[:len(whole)/2]}}, "exactly one Write")
+			// a writer that takes less than it is given and says nothing
+			c, got = c10Mk(p, seed, c10spec{tree: "rich", entry: entry, wshape: "short-nil"})
+			o := got[len(got)-1]
+			if o.Kind != "write" || o.Failed || o.Writes != 1 || o.Out != whole[:len(whole)/2] || len(o.Offered) != 1 || o.Offered[0] != whole {
+				t.Fatalf("%s/short-nil: the unchanged implementation returns nil after one call carrying everything; got %v (offered %q)", entry, got, o.Offered)
+			}
+			if c.NonTrivial {
+				t.Errorf("%s/short-nil: no failure cause, yet non-trivial", entry)
+			}
+			c10Accept(t, p, entry+"/short-nil returns nil", c, got)
+			if d := p.Compare(c, []hist.Obs{{Kind: "write", Out: whole}}, got); d != "" {
+				t.Errorf("%s/short-nil: Compare against the model's answer for a writer that does not fail: %s", entry, d)
+			}
+			esw := o
+			esw.Msg = "io.ErrShortWrite"
+			c10Accept(t, p, entry+"/short-nil returns io.ErrShortWrite", c, []hist.Obs{esw})
+			c10Accept(t, p, entry+"/short-nil offers the rest", c, []hist.Obs{{Kind: "write", Writes: 2, Out: whole, Offered: []string{whole, whole[len(whole)/2:]}}})
+			c10Reject(t, p, entry+"/short-nil first call carries less", c, []hist.Obs{{Kind: "write", Writes: 1, Out: whole[:2], Offered: []string{whole[:len(whole)-1]}}}, "the first Write call")
+			c10Reject(t, p, entry+"/short-nil rest never taken", c, []hist.Obs{{Kind: "write", Writes: 2, Out: whole[:len(whole)-1], Offered: []string{whole, "x"}}}, "what the writer took")
+			c10Reject(t, p, entry+"/short-nil other error", c, []hist.Obs{{Kind: "bad", Msg: "unexpected error: boom", Writes: 1}}, "unexpected class")
+		}
+		// n = 0: a fragment that renders to nothing; every shape degenerates to (0, err) or (0, nil)
+		for _, entry := range []string{"rcode-stmt", "rplain-stmt"} {
+			for _, shape := range c10WShapes {
+				c, got := c10Mk(p, seed, c10spec{tree: "empty", entry: entry, wshape: shape})
+				o := got[len(got)-1]
+				if o.Kind != "write" || o.Writes != 1 || o.Failed != c10ShapeFails(shape) {
+					t.Fatalf("%s/empty/%s: %v", entry, shape, got)
+				}
+				c10Accept(t, p, entry+"/empty/"+shape, c, got)
+				if c10ShapeFails(shape) {
+					c10Reject(t, p, entry+"/empty/"+shape+" swallowed", c, []hist.Obs{{Kind: "write", Writes: 1, Offered: []string{""}}}, "swallowed")
+				}
+			}
+		}
+	}
+}
+
+// Ground truth (3) of c10Whole: the NoFormat output against the same File rendered with
+// formatting - for a File that formats and for one whose format error quotes the source.
+func TestC10NoFormatAgainstFormatted(t *testing.T) {
+	p := &c10{}
+	defer p.Close()
+	mangle := func(s string) string { return strings.Replace(s, "%", "%!(MISSING)", 1) }
+	seen := map[string]int{}
+	for seed := int64(1); seed <= 40; seed++ {
+		for _, tree := range []string{"rich", "rich-invalid", "random-rich"} {
+			c, got := c10Mk(p, seed, c10spec{tree: tree, entry: "render", nf: true})
+			o := got[len(got)-1]
+			if o.Kind != "write" {
+				continue // (a random tree with an unsupported literal)
+			}
+			i := len(c.Hist) - 1
+			if d := c10RawAgainstFormatted(c.Hist, i, o.Out, nil); d != "" {
+				t.Fatalf("%s: rejects the unchanged implementation: %s", tree, d)
+			}
+			if !strings.Contains(o.Out, "%") {
+				continue
+			}
+			d := c10RawAgainstFormatted(c.Hist, i, mangle(o.Out), nil)
+			if d == "" {
+				t.Fatalf("%s: accepts a NoFormat output with a mangled %%:\n%s", tree, mangle(o.Out))
+			}
+			switch {
+			case strings.Contains(d, "quotes"):
+				seen["against-format-error"]++
+			default:
+				seen["against-formatted-output"]++
+			}
+			// a trailing byte lost
+			if d := c10RawAgainstFormatted(c.Hist, i, o.Out[:len(o.Out)-1], nil); d == "" && !strings.HasSuffix(o.Out, "\n") {
+				t.Errorf("%s: accepts a truncated NoFormat output", tree)
+			}
+		}
+	}
+	if seen["against-format-error"] < 5 || seen["against-formatted-output"] < 5 {
+		t.Errorf("ground truth (3) exercised too rarely: %v", seen)
+	}
+	// the format error of File.Render must quote what the File renders under NoFormat
+	c, got := c10Mk(p, 3, c10spec{tree: "rich-invalid", entry: "render"})
+	if got[len(got)-1].Kind != "fmterr" {
+		t.Fatalf("want fmterr, got %v", got)
+	}
+	c10Accept(t, p, "fmterr quotes the source", c, got)
+	bad := append([]hist.Obs(nil), got...)
+	bad[len(bad)-1].Out += " "
+	c10Reject(t, p, "fmterr quotes something else", c, bad, "quoted by the format error")
+}
+
+// The rich-content stream really is rich: most of its cases hold a % in the rendered source,
+// every tree kind and the large size occur, and the sprinkler hits the random trees.
+func TestC10RichContentStream(t *testing.T) {
+	p := &c10{}
+	defer p.Close()
+	r := rand.New(rand.NewSource(11))
+	cases := p.richContent(r, "quick")
+	n := map[string]int{}
+	for _, c := range cases {
+		got := c10Run(c)
+		if d := p.Oracle(c, got); d != "" {
+			t.Fatalf("oracle rejects the unchanged implementation: %s\n%s", d, c.Hist.Sexp())
+		}
+		o := got[len(got)-1]
+		if strings.Contains(o.Out, "%") && (o.Kind == "write" || o.Kind == "save" || o.Kind == "fmterr") {
+			n["percent-in-output"]++
+			if !c10HasTag(c, "percent-in-source") {
+				t.Fatalf("output with %% but no tag: %v", c.Tags)
+			}
+			if c10HasTag(c, "noformat=true") && o.Kind != "fmterr" {
+				n["percent-in-noformat-output"]++
+			}
+		}
+		if len(o.Out) > 20000 {
+			n["large-output"]++
+		}
+		for _, tg := range c.Tags {
+			if strings.HasPrefix(tg, "tree=") || strings.HasPrefix(tg, "wfault=") || strings.HasPrefix(tg, "percent-in=") {
+				n[tg]++
+			}
+		}
+	}
+	for _, k := range []string{"tree=rich", "tree=rich-invalid", "tree=random-rich", "wfault=full-err", "wfault=short-nil", "wfault=second-err", "wfault=part-err", "wfault=zero-err",
+		"percent-in=header", "percent-in=pkgcomment", "percent-in=cgo", "percent-in=canonical"} {
+		if n[k] < 5 {
+			t.Errorf("%s only %d times: %v", k, n[k], n)
+		}
+	}
+	if n["percent-in-output"] < len(cases)/2 || n["percent-in-noformat-output"] < 40 || n["large-output"] < 1 {
+		t.Errorf("not rich enough: %v of %d", n, len(cases))
 	}
 }
